@@ -1533,4 +1533,161 @@ example :
     rw [this] at h2
     exact hno h2
 
+/-! ## round k6: open items of the four reviews
+
+### the multi-level converse of `select_statement` -/
+
+/-- **Clauses 4 + 5 through every level, as an iff (the multi-level converse of `select_statement`).** -/
+theorem select_statement_iff : ∀ (p : Path) (v c : Val), c.KeysNodup → (v.at p).isSome →
+    ((∀ q, q <+: p → select v q c = pickAlong v q c) ↔ NotSearched v p c)
+  | [], v, c, _, _ => by
+      simp only [NotSearched, iff_true]
+      intro q hq
+      have : q = [] := List.prefix_nil.1 hq
+      subst this; simp [select, pickAlong]
+  | s :: p, v, c, hc, hp => by
+      cases hv : v.child s with
+      | none => simp [Val.at, hv] at hp
+      | some v' =>
+        have hp' : (v'.at p).isSome := by simpa [Val.at, hv] using hp
+        have ih := select_statement_iff p v' (pickLevel v s c) (pickLevel_KeysNodup v s c hc) hp'
+        simp only [NotSearched, hv]
+        constructor
+        · intro h
+          have h1 : selStep v s c = pickLevel v s c := by
+            have := h [s] (by simp)
+            simpa [select, pickAlong, hv] using this
+          refine ⟨(selStep_eq_pickLevel_iff v v' s c hv hc).1 h1, ih.1 ?_⟩
+          intro q hq
+          have := h (s :: q) (by simpa using hq)
+          simpa [select, pickAlong, hv, h1] using this
+        · rintro ⟨h1, h2⟩ q hq
+          cases q with
+          | nil => simp [select, pickAlong]
+          | cons t q =>
+            obtain ⟨rfl, hq'⟩ : t = s ∧ q <+: p := by simpa using hq
+            have e1 := selStep_statement v v' t c hv hc h1
+            simp only [select, pickAlong, hv, e1]
+            exact ih.2 h2 q hq'
+
+/-- the FIRST level of the K3 class on a path is where code and statement part -/
+theorem select_searched_first : ∀ (p : Path) (s : Step) (v vp v' c : Val), c.KeysNodup → v.at p = some vp →
+    vp.child s = some v' → NotSearched v p c → SearchedStep vp (pickAlong v p c) →
+    select v (p ++ [s]) c ≠ pickAlong v (p ++ [s]) c
+  | [], s, v, vp, v', c, _, hp, hs, _, hk => by
+      have : vp = v := by simpa [Val.at] using hp.symm
+      subst this
+      simp only [List.nil_append, select, pickAlong, hs]
+      exact selStep_searched vp v' s c hs (by simpa [pickAlong] using hk)
+  | t :: p, s, v, vp, v', c, hc, hp, hs, hn, hk => by
+      cases hv : v.child t with
+      | none => simp [Val.at, hv] at hp
+      | some v1 =>
+        have hp1 : v1.at p = some vp := by simpa [Val.at, hv] using hp
+        simp only [NotSearched, hv] at hn
+        have e1 := selStep_statement v v1 t c hv hc hn.1
+        simp only [List.cons_append, select, pickAlong, hv, e1]
+        apply select_searched_first p s v1 vp v' (pickLevel v t c) (pickLevel_KeysNodup v t c hc) hp1 hs hn.2
+        simpa [pickAlong, hv] using hk
+
+
+/-- non-vacuity of `select_searched_first`: `rec([[1,2],3], [[[10,20],[30,40],[50,60]], 7])`.  The outer level matches (the
+companion has the looped length 2) and hands `[[10,20],[30,40],[50,60]]` down to `[1,2]`; that level is of the K3 class (length 3,
+not 2, but lists of length 2 inside): the leaf `2` receives `[20,40,60]`, the statement says the whole list -/
+example :
+    let v : Val := .list [.list [.cell (.int 1), .cell (.int 2)], .cell (.int 3)]
+    let c : Val := .list [.list [.list [.cell (.int 10), .cell (.int 20)], .list [.cell (.int 30), .cell (.int 40)],
+                                 .list [.cell (.int 50), .cell (.int 60)]], .cell (.int 7)]
+    NotSearched v [.idx 0] c ∧ select v [.idx 0, .idx 1] c ≠ pickAlong v [.idx 0, .idx 1] c ∧
+    select v [.idx 0, .idx 1] c = .list [.cell (.int 20), .cell (.int 40), .cell (.int 60)] ∧
+    pickAlong v [.idx 0, .idx 1] c = .list [.list [.cell (.int 10), .cell (.int 20)], .list [.cell (.int 30), .cell (.int 40)],
+                                 .list [.cell (.int 50), .cell (.int 60)]] := by
+  intro v c
+  refine ⟨⟨fun h => ?_, trivial⟩, by decide +kernel, by decide +kernel, by decide +kernel⟩
+  have := h.1; revert this; decide +kernel
+
+/-! ### `replace` / `split`: the companion clause for the public signatures -/
+
+/-- the call the public `replace(text, old, new)` makes: `_replace(text, old = old, new = new)` (_txt.py:84-95), and
+`split(text, sep, dedup)`: `_split(text, sep = sep, dedup = dedup)` (_txt.py:186-215) -/
+def replaceCall (f : LeafFn) (text old new : Val) : Res Val := wrapped f text [] [("old", old), ("new", new)]
+def splitCall (f : LeafFn) (text sep dedup : Val) : Res Val := wrapped f text [] [("sep", sep), ("dedup", dedup)]
+
+theorem two_keyword_companions (f : LeafFn) (k1 k2 : String) (h1 : k1 ≠ "axis") (h2 : k2 ≠ "axis")
+    (v c d r : Val) (p : Path) (a : Cell)
+    (h : wrapped f v [] [(k1, c), (k2, d)] = .ok r) (hp : v.at p = some (.cell a)) :
+    ∃ y, f (.cell a) [] [(k1, select v p c), (k2, select v p d)] = .ok y ∧ r.at p = some y := by
+  obtain ⟨y, hy, hr⟩ := lift_leaves f v [] [(k1, c), (k2, d)] r p a h hp
+  refine ⟨y, ?_, hr⟩
+  have hd : dropAxis [(k1, c), (k2, d)] = [(k1, c), (k2, d)] := by simp [dropAxis, h1, h2]
+  simpa [hd, mapKW] using hy
+
+/-- **`replace` / `split`: the companion clause for the two public signatures.**  For ANY leaf function, any nested text
+structure and any `old` / `new` (`sep` / `dedup`): the leaf at path `p` is the leaf function applied to the text leaf with the
+keywords `old` / `new` (`sep` / `dedup`) holding what the STATEMENT selects for that position (`pickAlong`: the member of a
+matching container at every level, else the whole) - provided no level is of the K3 class. -/
+theorem replace_companions (f : LeafFn) (text old new r : Val) (p : Path) (a : Cell)
+    (ho : old.KeysNodup) (hn : new.KeysNodup)
+    (h : replaceCall f text old new = .ok r) (hp : text.at p = some (.cell a))
+    (so : NotSearched text p old) (sn : NotSearched text p new) :
+    ∃ y, f (.cell a) [] [("old", pickAlong text p old), ("new", pickAlong text p new)] = .ok y ∧ r.at p = some y := by
+  have hp' : (text.at p).isSome := by simp [hp]
+  rw [← select_statement p text old ho hp' so, ← select_statement p text new hn hp' sn]
+  exact two_keyword_companions f "old" "new" (by decide) (by decide) text old new r p a h hp
+
+theorem split_companions (f : LeafFn) (text sep dedup r : Val) (p : Path) (a : Cell)
+    (hs : sep.KeysNodup) (hd : dedup.KeysNodup)
+    (h : splitCall f text sep dedup = .ok r) (hp : text.at p = some (.cell a))
+    (ss : NotSearched text p sep) (sd : NotSearched text p dedup) :
+    ∃ y, f (.cell a) [] [("sep", pickAlong text p sep), ("dedup", pickAlong text p dedup)] = .ok y ∧ r.at p = some y := by
+  have hp' : (text.at p).isSome := by simp [hp]
+  rw [← select_statement p text sep hs hp' ss, ← select_statement p text dedup hd hp' sd]
+  exact two_keyword_companions f "sep" "dedup" (by decide) (by decide) text sep dedup r p a h hp
+
+/-- the instance the docstring of `replace` contradicts: `n` texts and a list of `n` strings to replace are PAIRED (text `i` has
+only `olds[i]` removed), while a list of another length is applied whole to every text -/
+theorem replace_pairs_elementwise (f : LeafFn) (xs cs : List Val) (new : Cell) (r : Val) (i : Nat) (a : Cell)
+    (hl : cs.length = xs.length) (hx : xs[i]? = some (.cell a))
+    (h : replaceCall f (.list xs) (.list cs) (.cell new) = .ok r) :
+    ∃ y, f (.cell a) [] [("old", getIdx cs i), ("new", .cell new)] = .ok y ∧ r.at [.idx i] = some y := by
+  have hp : (Val.list xs).at [.idx i] = some (.cell a) := by simp [Val.at, Val.child, hx]
+  obtain ⟨y, hy, hr⟩ := two_keyword_companions f "old" "new" (by decide) (by decide) _ _ _ r _ a h hp
+  refine ⟨y, ?_, hr⟩
+  have e1 : select (.list xs) [.idx i] (.list cs) = getIdx cs i := by
+    simp [select, Val.child, hx, (selStep_same_length xs cs i hl).1]
+  have e2 : select (.list xs) [.idx i] (.cell new) = .cell new := by
+    simp [select, Val.child, hx, selStep, itemByI]
+  simpa [e1, e2] using hy
+
+example : replaceCall recorderPure (.list [.cell (.str "a-b"), .cell (.str "c-d")])
+      (.list [.cell (.str "a"), .cell (.str "d")]) (.cell (.str "")) =
+    .ok (.list [.tuple [.cell (.str "a-b"), .tuple [], .dict [("old", .cell (.str "a")), ("new", .cell (.str ""))]],
+                .tuple [.cell (.str "c-d"), .tuple [], .dict [("old", .cell (.str "d")), ("new", .cell (.str ""))]]]) := by
+  decide +kernel
+
+
+/-! ### the waiter extension without failure events IS the model of the statement -/
+
+/-- **`WaiterF` refines `Waiter`.**  Run on result events only, the extended task machine (failing awaitables, `TaskF`) is in
+the state of the machine of the statement, embedded (`Task.toF`) - for every structure and every sequence of events, complete
+or not, in any order, with repetitions.  So `waiter_first_failure_wins` and the `waiter_*` theorems speak about ONE machine. -/
+theorem waiterF_without_failures (w : W) (evs : List (Nat × Val)) :
+    runEventsF w (evs.map fun e => (e.1, (Except.ok e.2 : Outcome))) = (runEvents w evs).toF := by
+  simp only [runEventsF, runEvents, startF_toF]
+  exact foldF_toF evs _
+
+/-- … hence what the caller sees is the same -/
+theorem waiterF_outcome_without_failures (w : W) (evs : List (Nat × Val)) :
+    (runEventsF w (evs.map fun e => (e.1, (Except.ok e.2 : Outcome)))).outcome = (runEvents w evs).result.map Except.ok := by
+  rw [waiterF_without_failures]
+  cases runEvents w evs <;> simp [Task.toF, TaskF.outcome, Task.result]
+
+/-- … and schedule independence holds of the extended machine as long as nothing fails -/
+theorem waiterF_confluent (w : W) (res : Nat → Val) (σ : List Nat) (h : σ.Perm (awaitables w)) :
+    (runEventsF w (σ.map fun i => (i, (Except.ok (res i) : Outcome)))).outcome = some (.ok (resolve res w)) := by
+  have := waiterF_outcome_without_failures w (σ.map fun i => (i, res i))
+  simp only [List.map_map] at this
+  rw [waiter_confluent w res σ h] at this
+  simpa [Function.comp_def] using this
+
 end Pyg.Props.C19
